@@ -5,9 +5,9 @@
 //       that no edge meeting the line is pruned -- completeness -- is NOT assumed and NOT claimed.)
 //   S1  results.sort_by(|a, b| a.0.partial_cmp(&b.0).unwrap()): the result is a permutation of the input (same length, every
 //       output element is an input element and vice versa), ascending in the first component (NaN panic dropped)
-//   S2  results.dedup_by(|a, b| (a.0 - b.0).abs() < tol): std semantics -- the result is a subsequence (in order) of the
-//       input that keeps the first element, and each kept element differs from the previously kept one by >= tol in the
-//       first component
+//   S2  results.dedup_by(|a, b| BODY) is NOT assumed any more: R12 rewrites it (frags/c06_hits.inc) to the explicit loop that
+//       std documents -- walk the list, call BODY with a = the current element and b = the last KEPT element, keep the current
+//       element iff BODY is false -- so that BODY (whatever tolerance expression it uses) is verified as code
 pub struct RayVisitor { pub collector: Vec<u32> }
 #[verifier::external_body]
 pub fn vf_bvh_candidates(polyline: &Polyline, ray: &Ray) -> (r: RayVisitor)
@@ -36,16 +36,6 @@ pub fn vf_sort_by_param(v: &mut Vec<(f64, usize)>)
     ensures
         exists|perm: Seq<int>| #[trigger] rearranged(final(v)@, old(v)@, perm),
         sorted_by_param(final(v)@),
-{ unimplemented!() }
-#[verifier::external_body]
-pub fn vf_dedup_by_param(v: &mut Vec<(f64, usize)>, tol: f64)
-    ensures
-        final(v).len() <= old(v).len(),
-        old(v).len() > 0 ==> final(v).len() > 0 && final(v)[0] == old(v)[0],
-        exists|idx: Seq<int>| #[trigger] subsequence(final(v)@, old(v)@, idx),
-        forall|i: int| 0 <= i < final(v).len() - 1 ==> {
-            let d = prm(final(v)@, i + 1) - #[trigger] prm(final(v)@, i);
-            (if d >= 0real { d } else { -d }) >= rv(tol) },
 { unimplemented!() }
 
 // ---- derived answers (max_intersection, farthest_point_direction_distance, Curve2 surface-point intersection)
